@@ -5,7 +5,7 @@ import posixpath
 from msdparser import MSDParserError
 
 from .. import gen, models, ops
-from ..core import RunResult, HarnessError
+from ..core import RunResult, HarnessError, shash
 from ..facades import Facade
 from ..models import (LoadError, RefSimfile, ref_encoding, ref_load, universal_newlines,
                       DEFAULT_ENCODINGS, dep_roundtrip_ok, gap_classes, ref_emit, serialisable)
@@ -508,7 +508,7 @@ def check_c05(sc, res):
         res.violate(P, "other-paths-changed", paths=sorted(extra))
         return
     tshape = tuple(e[1] for e in o.disk.events)
-    res.note("ok", facade, kind, enc, bool(out), bool(bak), hash(tshape) & 0xffff,
+    res.note("ok", facade, kind, enc, bool(out), bool(bak), shash(tshape) & 0xffff,
              len(sc["ops"]), cfg.get("buffering"))
     res.stats["probe:enc:" + enc] += 1
     if len(data) > 8192:
@@ -653,7 +653,7 @@ def check_c06(sc, res):
     trace = list(base.disk.events)
     K = len(trace)
     res.steps += K + len(sc["ops"])
-    tshape = hash(tuple(e[1] for e in trace)) & 0xffffff
+    tshape = shash(tuple(e[1] for e in trace)) & 0xffffff
     shape = (facade, kind, enc, bool(out), out_path == inp, bool(bak), tshape)
 
     def backup_complete(files):
